@@ -700,7 +700,7 @@ pub fn build_hand(name: &str, rng: &mut Rng) -> Built {
             Rig { block: Box::new(b), ins: vec![fi], outs: vec![drainer(o)] }
         }
         "delayctl" => {
-            let d = *rng.pick(&[0usize, 1, 2, 5, 40, 1500]);
+            let d = *rng.pick(&[0usize, 1, 2, 5, 40, 1500, 40, 1500]);
             params = vec![d as u64];
             alphabets = vec![(1 << 32, vec![])];
             POKE.lock().unwrap().clear();
@@ -1619,6 +1619,18 @@ pub fn case(name: &str, rng: &mut Rng, steps: usize, heavy_tags: bool) -> String
             let hi = *rng.pick(&[5usize, 7, 40, 100]);
             acts.insert(at, Act::Poke(hi));
             acts.insert(at, Act::Poke(lo));
+        }
+        // the delay lowered by more than what is queued: the next calls have to drop ALL the input they see (no
+        // further random draw: decided by the case's parameters)
+        if built.params[0] >= 40 && ins[0].len >= 400 {
+            let lo = (ins[0].len / 2) % 4;
+            let prefix = [
+                Act::Feed(0, 300), Act::Work, Act::Drain(0, 2000), Act::Work, Act::Drain(0, 2000), Act::Work, Act::Drain(0, 2000),
+                Act::Poke(lo), Act::Feed(0, 5), Act::Work, Act::Work, Act::Feed(0, 3), Act::Work, Act::Drain(0, 2000),
+            ];
+            for (i, a) in prefix.iter().enumerate() {
+                acts.insert(i, *a);
+            }
         }
     }
     let req = request(&built.name, &built.params, &built.rig, &ins, &acts);
